@@ -57,7 +57,9 @@ def reference(secs, osenv):
     for kind, name, items in secs:
         if kind == 'env':
             for k, v in items:
-                local.setdefault(k, v)
+                # "you can use environment variables defined in the env section or in os.environ itself": a value
+                # of [env] that refers to a variable of the daemon's environment is expanded too
+                local.setdefault(k, expand(v, osenv))
     glob = dict(osenv)
     glob.update(local)
     out = {}
